@@ -100,7 +100,7 @@ func TestVerifSys(t *testing.T) {
 		defer res.Finish()
 		sysC16(res)
 	case "c13":
-		res := vlib.NewResult("C13", "sys-c13-tamper", "whole system with a tampering broker front: each of 11 hostile documents (wrongly typed members, null, non-JSON, SDP the parser panics on, huge) is relayed to a real proxy process as the client's offer and to a real client process as the proxy's answer; the process must be alive and poll again afterwards; non-trivial = document delivered, distinct by (side, document)")
+		res := vlib.NewResult("C13", "sys-c13-tamper", "whole system with a tampering broker front: each of 13 hostile documents (wrongly typed members, null, non-JSON, SDP the parser panics on, huge) is relayed to a real proxy process as the client's offer and to a real client process as the proxy's answer; the process must be alive and poll again afterwards; non-trivial = document delivered, distinct by (side, document)")
 		defer res.Finish()
 		sysC13(res)
 	case "c15":
